@@ -235,8 +235,16 @@ func newWorld(t *testing.T) *world {
 	w.pathT.Setup()
 	w.pathT2 = ibctesting.NewTransferPath(w.A, w.B)
 	w.pathT2.Setup()
+	// an unrelated client on A only, so that the two ends of every later path have DIFFERENT client identifiers
+	// (07-tendermint-N+1 on A, 07-tendermint-N on B): a gate that looks at the counterparty's identifier instead of
+	// the local one then consults another client's configuration (seeded change C46-1)
+	extra := ibctesting.NewPath(w.A, w.B)
+	must(t, extra.EndpointA.CreateClient())
 	w.pathV = ibctesting.NewPath(w.A, w.B)
 	w.pathV.SetupV2()
+	if w.pathV.EndpointA.ClientID == w.pathV.EndpointB.ClientID {
+		t.Fatal("client identifiers of the v2 path are meant to differ")
+	}
 	w.pathR = ibctesting.NewPath(w.A, w.B)
 	w.pathR.SetupClients()
 	w.subj = ibctesting.NewPath(w.A, w.B)
